@@ -84,12 +84,13 @@ pub(crate) fn valid_ident() -> &'static Regex {
     VALID_IDENT.get_or_init(|| {
         // One of:
         // - `*`
-        // - An ident starting with `a-z_` and containing other characters `a-z0-9_\$`
-        //   (a leading `$` must be quoted: `$1` is a bind parameter in several engines)
+        // - An ident starting with `a-z_` and containing other characters `a-z0-9_`
+        //   (`$` must be quoted: `$1` is a bind parameter in several engines, and the
+        //   SQL formatter splits a bare `a$b` into `a $b`)
         //
         // We could replace this with pomsky (regex<>pomsky : sql<>prql)
-        // ^ ('*' | [ascii_lower '_'] [ascii_lower ascii_digit '_$']* ) $
-        Regex::new(r"^((\*)|(^[a-z_][a-z0-9_\$]*))$").unwrap()
+        // ^ ('*' | [ascii_lower '_'] [ascii_lower ascii_digit '_']* ) $
+        Regex::new(r"^((\*)|(^[a-z_][a-z0-9_]*))$").unwrap()
     })
 }
 
